@@ -16,6 +16,8 @@ pub mod diagn {
     }
     #[verifier::external_body]
     pub struct Message { _p: u8 }
+    /// the message is of kind Error (defined over the real field in U-report)
+    pub uninterp spec fn msg_is_error(m: Message) -> bool;
     #[verifier::external_body]
     #[derive(Clone, Copy)]
     pub struct Span { _p: u8 }
